@@ -1,6 +1,7 @@
 #include "run.h"
 #include <dlfcn.h>
 #include <csignal>
+#include <sys/time.h>
 
 static std::vector<Check *> &registry()
 {
@@ -166,10 +167,20 @@ static RunResult run_single(const Plan &plan, Check &check, const std::string &l
 	argv.push_back(nullptr);
 	check.begin(*ctx);
 	K.begin_step(-1, nullptr);
+	// every single execution gets its own CPU budget (the worker's SIGVTALRM handler reports a hang)
+	{
+		struct itimerval it = {};
+		it.it_value.tv_sec = getenv("NVSIM_WATCHDOG") ? atoi(getenv("NVSIM_WATCHDOG")) : 20;
+		setitimer(ITIMER_VIRTUAL, &it, nullptr);
+	}
 	if (!setjmp(K.run_jb)) {
 		scrub_stack();
 		call_main(ed, argv);
 		K.outcome = OUT_RETURNED;
+	}
+	{
+		struct itimerval it = {};
+		setitimer(ITIMER_VIRTUAL, &it, nullptr);
 	}
 	res.outcome = K.outcome;
 	res.outcome_note = K.outcome_note;
